@@ -15,6 +15,7 @@ Case kinds
         symbols_to_dataframe, then dataframe_to_symbols
   {'kind': 't2s', 'cols': [[name, pandas dtype, [cells]]]}      dataframe_to_symbols of a hand-made frame (malformed stream)
   {'kind': 'pd', 'op': 'series'|'infer'|'cast', 'entry': id, ...}    one entry of the library-behaviour table (see pd_table)
+  {'kind': 'numdtype', 'via': 'model'|'container', 'span': spec, 'vars': [[name, NumPy dtype name, [cells]]]}   export / rebuild of float32, uintN, intN, complex series (oracle only)
 Cells (JSON): ['i', n] ['fi', n] (integral float) ['ff', m, e] (m / 2**e, m odd) ['nz'] (-0.0) ['nan'] ['pinf'] ['ninf'] ['none']
   ['b', bool] ['s', str] ['tup', a, b] (a, b int or str: a row of a two-level MultiIndex) ['per', freq code, ordinal] ['ts', ns] ['td', ns].
 K_table runs the extracted Gallina model (Data/Table.v: model_to_table, from_table, linker_to_tables, symbols_to_table,
@@ -44,7 +45,7 @@ RULE = ('table-validation pass first: every entry of the pandas / NumPy behaviou
         '0..3 runtime-added variables of every dtype, written status / iterations or really solved models, all 8 flag combinations, '
         'round-trip classes inside the guard (class lists every exported variable, dtype= equal to the series dtype / object / exactly representable float; about half of the export cases) and outside it (permuted, extended, reduced, duplicated NAMES; every dtype=; strict / non-strict; default values: K only); every name set x '
         'every flag combination x every model dtype on a two-period span; hand-edited names lists (duplicates, status / iterations, '
-        'unknown names: malformed stream, K only); histories (from_dataframe -> reindex to a shifted / longer / shorter / reversed / new span, copy, '
+        'unknown names: malformed stream, K only); series of every numeric NumPy dtype (float16/32, int8..64, uint8..64, complex128: oracle only); spans with NaN / NaT labels, CategoricalIndex, IntervalIndex (oracle only); frames whose columns are shuffled before from_dataframe; histories (from_dataframe -> reindex to a shifted / longer / shorter / reversed / new span, copy, '
         'add_variable, writes -> export and from_dataframe again, every step compared: the export is a function of the current state); models and '
         'linkers without any public variable (no names, only underscore names) under all 8 flag combinations; AliasMixin models (plain path, use_aliases not given) and PandasIndexFeaturesMixin models; '
         'from_dataframe with engine= passed through and with extra positional arguments (TypeError); plain VectorContainers and VectorContainer.to_dataframe on model objects; linkers with '
@@ -464,6 +465,29 @@ def impl(case):
                 continue
             record(step)
         return {'records': records}
+    if k == 'numdtype':
+        import numpy as np
+        span = build_span(case['span'])
+        holder = fsic.BaseModel(span) if case['via'] == 'model' else fsic.core.containers.VectorContainer(span)
+        for name, dt, vals in case['vars']:
+            holder.add_variable(name, [dec(c) for c in vals], dtype=np.dtype(dt))
+        rows = []
+
+        def export():
+            df = holder.to_dataframe(status=False, iterations=False) if case['via'] == 'model' else holder.to_dataframe()
+            for name, dt, vals in case['vars']:
+                a = holder[name]
+                col = df[name]
+                rows.append([name, str(a.dtype), str(col.dtype), bool(np.array_equal(np.asarray(col), a, equal_nan=a.dtype.kind in 'fc')),
+                             [repr(x) for x in a.tolist()]])
+            out = {'rows': rows}
+            if case['via'] == 'model' and case['vars']:
+                dt0 = case['vars'][0][1]
+                C = type('C', (fsic.BaseModel,), {'NAMES': [v[0] for v in case['vars'] if v[1] == dt0]})
+                m2 = C.from_dataframe(df, dtype=np.dtype(dt0))
+                out['rt'] = [[n, str(m2[n].dtype), bool(np.array_equal(m2[n], holder[n], equal_nan=holder[n].dtype.kind in 'fc'))] for n in C.NAMES]
+            return out
+        return _attempt(export)
     if k == 'container':
         c = fsic.core.containers.VectorContainer(build_span(case['span'])) if not case.get('model') else fsic.BaseModel(build_span(case['span']))
         for name, dt, cells in case['vars']:
@@ -966,6 +990,10 @@ def modellable(case, o):
     k = case['kind']
     if o is None or o.get('timeout'):
         return False
+    if k == 'numdtype':
+        return False                               # dtypes outside the model's float / int / bool / str / object: oracle only
+    if 'span' in case and not case.get('history') and (case['span']['type'] in ('catindex', 'intervalindex') or not cells_ok(span_labels(case['span']))):
+        return False                               # NaT / Interval / ... labels: oracle only
     if k in ('export', 'solved'):
         pre = o.get('pre')
         return pre is not None and all(cells_ok(v[2]) and v[1] in NDT for v in pre['vars']) and cells_ok(pre['span']['labels'])
@@ -1175,7 +1203,7 @@ def oracle_table(pre, table, flags, site, fails):
         # the two kept findings excuse ONLY the labels they are about: a None exported as NaN, an int beyond 2^53 exported as the
         # nearest float (both only in a span pandas turns into a float / str index); every other label must still be right
         def none_nan(a, b):
-            return b[0] == 'none' and a[0] == 'nan'
+            return b[0] == 'none' and a[0] in ('nan', 'nat')       # NaT when the other labels are Periods / Timestamps / Timedeltas
 
         def rounded(a, b):
             return b[0] == 'i' and abs(b[1]) > 2 ** 53 and a[0] == 'fi' and a[1] == int(float(b[1]))
@@ -1307,6 +1335,21 @@ def oracle(case, o):
         if isinstance(o.get('table_direct'), dict):
             oracle_table(pre, o['table_direct'], case['flags'], 'model_to_dataframe', fails)
         return fails
+    if k == 'numdtype':
+        if 'raise' in o:
+            bad('to_dataframe', 'numeric-dtype', o['raise'], 'export / rebuild of %s series raised %s' % ([v[1] for v in case['vars']], o['raise']))
+            return fails
+        for name, adt, cdt, same, vals in o['rows']:
+            if cdt != adt:
+                bad('to_dataframe', 'dtype', 'not-preserved', 'column %s of a %s series has dtype %s' % (name, adt, cdt))
+            elif not same:
+                bad('to_dataframe', 'cells', 'value-changed', 'column %s (%s) does not hold the series values %s' % (name, adt, vals[:6]))
+        for name, ndt, same in o.get('rt', []):
+            want = [v[1] for v in case['vars'] if v[0] == name][0]
+            if ndt != want or not same:
+                bad('from_dataframe', 'values' if ndt == want else 'dtype', 'not-reproduced' if ndt == want else 'not-the-dtype-asked-for',
+                    'variable %s (%s) was rebuilt as %s, values equal: %s' % (name, want, ndt, same))
+        return fails
     if k == 'pd':
         return fails                              # library behaviour: no clause of the property; K validates the table
     if k == 'container':
@@ -1368,7 +1411,7 @@ def nontrivial(case, o):
         if 'raise' in t or ('rt' in o and 'raise' in o['rt']):
             return True
         return len(t['index']['labels']) >= 2 and len(t['cols']) >= 2
-    if k == 'pd':
+    if k in ('pd', 'numdtype'):
         return True
     if k == 'history':
         return len([r for r in o['records'] if 'pre' in r]) >= 3
@@ -1394,6 +1437,8 @@ def bucket(case, o):
                                                 'in-guard:' + rt_class(case, o)[1] if in_rt_guard(case, o) else 'outside-guard')
     if k == 'pd':
         return 'pdtable/' + case['entry']
+    if k == 'numdtype':
+        return 'numdtype/%s/%s' % (case['via'], '+'.join(sorted({v[1] for v in case['vars']})))
     if k == 'history':
         return 'history/%s/%s' % (case['span']['type'], '-'.join(st[0] for st in case['steps'][:4]))
     if k == 'container':
@@ -1759,6 +1804,22 @@ def gen(rng, tier):
             if model:
                 vs = [v for v in vs if v[0] not in ('status', 'iterations')]
             cases.append({'kind': 'container', 'span': spec, 'vars': vs, 'model': model})
+    # "numeric and boolean dtypes preserved" beyond float64 / int64 / bool: float32, float16, every int / uint width, complex (oracle only)
+    NUM = {'float32': [['ff', 3, 1], ['fi', 16777216], ['nan'], ['nz']], 'float16': [['ff', 1, 1], ['fi', 2048], ['pinf']],
+           'uint8': [['i', 0], ['i', 255], ['i', 7]], 'uint16': [['i', 65535], ['i', 1]], 'uint32': [['i', 2 ** 32 - 1], ['i', 0]],
+           'uint64': [['i', 2 ** 64 - 1], ['i', 0], ['i', 2 ** 63]], 'int8': [['i', -128], ['i', 127]], 'int16': [['i', -32768], ['i', 5]],
+           'int32': [['i', -2 ** 31], ['i', 2 ** 31 - 1]], 'complex128': [['ff', 3, 1], ['fi', -2]], 'float64': [['ff', 1, 1], ['nan']],
+           'int64': [['i', -2 ** 63], ['i', 2 ** 63 - 1]], 'bool': [['b', True], ['b', False]]}
+    for via in ('model', 'container'):
+        for dtn, pool in NUM.items():
+            for n in (0, 1, 3):
+                sp = {'type': 'range', 'start': 2000, 'step': 1, 'n': n}
+                cases.append({'kind': 'numdtype', 'via': via, 'span': sp, 'vars': [['V', dtn, [list(pool[i % len(pool)]) for i in range(n)]]]})
+        for _ in range(10 if quick else 60):
+            n = rng.choice([1, 2, 4])
+            dts = rng.sample(sorted(NUM), rng.choice([2, 3]))
+            cases.append({'kind': 'numdtype', 'via': via, 'span': rng.choice([{'type': 'range', 'start': 0, 'step': 1, 'n': n}, {'type': 'list', 'labels': [['s', 'p%d' % i] for i in range(n)]}]),
+                          'vars': [['V%d' % j, d, [list(rng.choice(NUM[d])) for _ in range(n)]] for j, d in enumerate(dts)]})
     # histories: the export must depend on the object's current state only.  from_dataframe -> reindex / copy / add_variable /
     # writes -> to_dataframe -> from_dataframe again, every step exported, rebuilt and compared with the model
     def shifted(spec, rng):
